@@ -11,6 +11,7 @@ SHAPES = {   # init, target
     "ffns-down": ((4.4, 4), (2.0, 4)),
     "vfns-up": ((2.5, 4), (8.0, 5)),
     "vfns-down": ((8.0, 5), (2.5, 4)),
+    "ffns5-up": ((6.0, 5), (14.0, 5)),     # a five-flavour segment (with QED: the down-type sectors of the unified basis)
 }
 NGRID = 24
 XMIN = 1e-4
@@ -92,6 +93,11 @@ def _toy(x, rng, pids, pol, qed):
         s = sea(rng.uniform(0.1, 0.4))
         f[pids.index(-q)] = s
         f[pids.index(q)] = s + (val(rng.uniform(1.0, 3.0)) if q <= 3 else 0.0)
+    # a sizeable bottom content (about a sixth of the momentum), also where bottom is not active yet
+    # (intrinsic): whatever a matching or a rotation does to the heavy-quark entries shows in the totals
+    s = sea(rng.uniform(2.0, 3.0))
+    f[pids.index(-5)] = s
+    f[pids.index(5)] = s + val(rng.uniform(0.2, 0.6))
     return f
 
 
